@@ -666,82 +666,120 @@ def _split_builders(r, p, ct):
         raise AnalysisError("classify_selected_name vanished")
     if not any(isinstance(n, ast.Assign) and isinstance(n.value, ast.Call) and isinstance(n.value.func, ast.Attribute) and n.value.func.attr == "split" and len(n.value.args) == 1 and isinstance(n.value.args[0], ast.Constant) and n.value.args[0].value == "." for n in walk_function(cs.node)):
         r.fail("C04.classify", cs.key + ":split", "the dotted name is no longer split on '.' alone", cs.loc())
-    builders = [fi for fi in p.functions.values() if fi.module.name == "vsg.vhdlFile.classify.utils" and fi.name.startswith("build_") and fi.name.endswith("_token_list") and fi.name != "build_selected_name_token_list"]
-    if len(builders) < 2:
+    modfuncs = {fi.name: fi for fi in p.functions.values() if fi.module.name == "vsg.vhdlFile.classify.utils" and fi.cls is None}
+    # builders: what the splice site's producer returns -- the producer itself, or (through a dispatcher whose
+    # every return is a call of a module function) the functions it dispatches to
+    entry = modfuncs.get("classify_selected_name")
+    if entry is None:
+        raise AnalysisError("classify_selected_name not found")
+    prod = [modfuncs[n.value.func.id] for n in walk_function(entry.node) if isinstance(n, ast.Assign) and isinstance(n.value, ast.Call) and isinstance(n.value.func, ast.Name) and n.value.func.id in modfuncs]
+    if len(prod) != 1:
+        raise AnalysisError("classify_selected_name: producer of the replacement list not found")
+    builders, seen, work = [], set(), [prod[0]]
+    while work:
+        fi = work.pop()
+        if fi.key in seen:
+            continue
+        seen.add(fi.key)
+        rets = [n for n in walk_function(fi.node) if isinstance(n, ast.Return)]
+        if rets and all(isinstance(n.value, ast.Call) and isinstance(n.value.func, ast.Name) and n.value.func.id in modfuncs for n in rets):
+            work.extend(modfuncs[n.value.func.id] for n in rets)
+        else:
+            builders.append(fi)
+    dispatchers = seen - {b_.key for b_ in builders}
+    if not builders:
         raise AnalysisError("selected-name builders not found")
-    for b in sorted(builders, key=lambda f: f.key):
+    n_elem = 0
+    any_problem = False
+    for bfi in sorted(builders, key=lambda f: f.key):
         problems = []
-        parts = b.params[0]
-        loops = [n for n in walk_function(b.node) if isinstance(n, ast.For)]
-        rets = [n for n in walk_function(b.node) if isinstance(n, ast.Return)]
-        if len(loops) != 1 or not ((isinstance(loops[0].iter, ast.Call) and norm(loops[0].iter.func) == "enumerate" and norm(loops[0].iter.args[0]) == parts) or norm(loops[0].iter) == parts):
-            problems.append("does not loop over every part of the split name")
-        if any(isinstance(n, ast.Subscript) and norm(n.value) == parts and isinstance(n.slice, (ast.Constant, ast.UnaryOp)) for n in walk_function(b.node)):
+        loops = [n for n in walk_function(bfi.node) if isinstance(n, ast.For)]
+        rets = [n for n in walk_function(bfi.node) if isinstance(n, ast.Return)]
+        parts = norm(loops[0].iter.args[0]) if loops and isinstance(loops[0].iter, ast.Call) and loops[0].iter.args else "?"
+        if len(loops) != 1:
+            problems.append("does not loop exactly once over every part of the split name")
+        if any(isinstance(n, ast.Subscript) and norm(n.value) == parts and isinstance(n.slice, (ast.Constant, ast.UnaryOp)) for n in walk_function(bfi.node)):
             problems.append("picks parts by fixed position")
         if len(rets) != 1 or not isinstance(rets[0].value, ast.Name):
             problems.append("does not return the one list it builds")
         out = norm(rets[0].value) if rets and rets[0].value is not None else "?"
-        pops = [n for n in walk_function(b.node) if isinstance(n, ast.Call) and isinstance(n.func, ast.Attribute) and n.func.attr == "pop" and norm(n.func.value) == out]
+        pops = [n for n in walk_function(bfi.node) if isinstance(n, ast.Call) and isinstance(n.func, ast.Attribute) and n.func.attr == "pop" and norm(n.func.value) == out]
         if len(pops) != 1 or pops[0].args or (loops and pops[0].lineno < loops[0].end_lineno):
             problems.append("does not drop exactly the trailing separator after the loop")
-        # element function (or inline body)
         body = loops[0].body if loops else []
-        ef = None
+        efs = []
+        call = None
         if len(body) == 1 and isinstance(body[0], ast.Expr) and isinstance(body[0].value, ast.Call) and isinstance(body[0].value.func, ast.Name):
-            ef = p.functions.get("vsg.vhdlFile.classify.utils:" + body[0].value.func.id)
-        if ef is None:
-            problems.append("loop body is not a call of an element classifier")
-        else:
             call = body[0].value
-            amap = {pn: norm(a) for pn, a in zip(ef.params, call.args)}
-            lst = [pn for pn, a in amap.items() if a == out]
-            prt = [pn for pn, a in amap.items() if a == parts]
-            idx = [pn for pn, a in amap.items() if isinstance(loops[0].target, ast.Tuple) and a == norm(loops[0].target.elts[0])]
+            fname = call.func.id
+            if fname in bfi.params:
+                # element classifier handed in as a function value: every call of the builder must pass a module function
+                pi = bfi.params.index(fname)
+                for g in modfuncs.values():
+                    for c in walk_function(g.node):
+                        if isinstance(c, ast.Call) and isinstance(c.func, ast.Name) and c.func.id == bfi.name:
+                            a_ = c.args[pi] if pi < len(c.args) else None
+                            if isinstance(a_, ast.Name) and a_.id in modfuncs:
+                                efs.append(modfuncs[a_.id])
+                            else:
+                                problems.append("called with an element classifier that is not a function of the module")
+            elif fname in modfuncs:
+                efs.append(modfuncs[fname])
+        if not efs:
+            problems.append("loop body is not a call of an element classifier")
+        for ef in efs:
+            n_elem += 1
+            amap = {pn: norm(a_) for pn, a_ in zip(ef.params, call.args)}
+            lst = [pn for pn, a_ in amap.items() if a_ == out]
+            prt = [pn for pn, a_ in amap.items() if a_ == parts]
+            idx = [pn for pn, a_ in amap.items() if isinstance(loops[0].target, ast.Tuple) and a_ == norm(loops[0].target.elts[0])]
             if not (lst and prt and idx):
-                problems.append("element classifier is not given the index, the parts and the output list")
+                problems.append("element classifier %s is not given the index, the parts and the output list" % ef.name)
+                continue
+            lst, prt, idx = lst[0], prt[0], idx[0]
+            stmts = [st for st in ef.node.body if not (isinstance(st, ast.Expr) and isinstance(st.value, ast.Constant))]
+            svar = None
+            if stmts and isinstance(stmts[0], ast.Assign) and norm(stmts[0].value) == "%s[%s]" % (prt, idx):
+                svar = norm(stmts[0].targets[0])
+                stmts = stmts[1:]
             else:
-                lst, prt, idx = lst[0], prt[0], idx[0]
-                stmts = [st for st in ef.node.body if not (isinstance(st, ast.Expr) and isinstance(st.value, ast.Constant))]
-                svar = None
-                if stmts and isinstance(stmts[0], ast.Assign) and norm(stmts[0].value) == "%s[%s]" % (prt, idx):
-                    svar = norm(stmts[0].targets[0])
-                    stmts = stmts[1:]
+                problems.append("%s: element text is not parts[index]" % ef.name)
+
+            def is_part_append(st):
+                return isinstance(st, ast.Expr) and isinstance(st.value, ast.Call) and norm(st.value.func) == lst + ".append" and len(st.value.args) == 1 and isinstance(st.value.args[0], ast.Call) and len(st.value.args[0].args) == 1 and norm(st.value.args[0].args[0]) == svar
+
+            def is_dot_append(st):
+                return isinstance(st, ast.Expr) and isinstance(st.value, ast.Call) and norm(st.value.func) == lst + ".append" and len(st.value.args) == 1 and isinstance(st.value.args[0], ast.Call) and not st.value.args[0].args and norm(st.value.args[0].func).endswith(".dot")
+
+            def branches(ifn):
+                out_ = [ifn.body]
+                if len(ifn.orelse) == 1 and isinstance(ifn.orelse[0], ast.If):
+                    out_ += branches(ifn.orelse[0])
+                elif ifn.orelse:
+                    out_.append(ifn.orelse)
                 else:
-                    problems.append("element text is not parts[index]")
+                    out_.append(None)
+                return out_
 
-                def is_part_append(st):
-                    return isinstance(st, ast.Expr) and isinstance(st.value, ast.Call) and norm(st.value.func) == lst + ".append" and len(st.value.args) == 1 and isinstance(st.value.args[0], ast.Call) and len(st.value.args[0].args) == 1 and norm(st.value.args[0].args[0]) == svar
-
-                def is_dot_append(st):
-                    return isinstance(st, ast.Expr) and isinstance(st.value, ast.Call) and norm(st.value.func) == lst + ".append" and len(st.value.args) == 1 and isinstance(st.value.args[0], ast.Call) and not st.value.args[0].args and norm(st.value.args[0].func).endswith(".dot")
-
-                def branches(ifn):
-                    out_ = [ifn.body]
-                    if len(ifn.orelse) == 1 and isinstance(ifn.orelse[0], ast.If):
-                        out_ += branches(ifn.orelse[0])
-                    elif ifn.orelse:
-                        out_.append(ifn.orelse)
-                    else:
-                        out_.append(None)  # missing else
-                    return out_
-
-                if len(stmts) == 2 and isinstance(stmts[0], ast.If) and is_dot_append(stmts[1]):
-                    for br in branches(stmts[0]):
-                        if br is None or len(br) != 1 or not is_part_append(br[0]):
-                            problems.append("a branch of the element classifier does not append exactly one token carrying the part's text")
-                            break
-                elif len(stmts) == 2 and is_part_append(stmts[0]) and is_dot_append(stmts[1]):
-                    pass
-                else:
-                    problems.append("element classifier is not `one token with the part's text, then one dot`")
+            if len(stmts) == 2 and isinstance(stmts[0], ast.If) and is_dot_append(stmts[1]):
+                for br in branches(stmts[0]):
+                    if br is None or len(br) != 1 or not is_part_append(br[0]):
+                        problems.append("%s: a branch does not append exactly one token carrying the part's text" % ef.name)
+                        break
+            elif len(stmts) == 2 and is_part_append(stmts[0]) and is_dot_append(stmts[1]):
+                pass
+            else:
+                problems.append("%s is not `one token with the part's text, then one dot`" % ef.name)
         for k in ("vsg.token.use_clause:dot", "vsg.token.context_reference:dot"):
             if ct.const_value.get(k) != ".":
                 problems.append("%s is no longer the constant '.'" % k)
         if problems:
-            r.fail("C04.classify", b.key + ":split-builder", "%s no longer provably re-emits every part of the split name (%s): text between the dots is lost when the file is written back" % (b.name, "; ".join(sorted(set(problems))[:3])), b.loc())
+            any_problem = True
+            r.fail("C04.classify", bfi.key + ":split-builder", "%s no longer provably re-emits every part of the split name (%s): text between the dots is lost when the file is written back" % (bfi.name, "; ".join(sorted(set(problems))[:3])), bfi.loc())
         else:
-            r.ok("C04.classify", b.key + ":split-builder", "one token per part of value.split('.'), in order, each followed by '.', trailing '.' dropped")
-
+            r.ok("C04.classify", bfi.key + ":split-builder", "one token per part of value.split('.'), in order, each followed by '.', trailing '.' dropped (%d element classifier(s))" % len(efs))
+    if n_elem < 2 and not any_problem:
+        raise AnalysisError("only %d element classifiers behind the selected-name builders" % n_elem)
 
 def _direct_writes(r, p, ct):
     """V3: every direct write of a token list in the classifier."""
